@@ -14,6 +14,8 @@ RECORD = "antismash/common/secmet/record.py"
 SUBP = "antismash/common/subprocessing/base.py"
 RHELP = "antismash/common/secmet/features/region/helpers.py"
 FORM = "antismash/common/secmet/features/candidate_cluster/formation.py"
+COLL = "antismash/common/secmet/features/cdscollection.py"
+FEAT = "antismash/common/secmet/features/feature.py"
 
 TYPES = {
     "part": {"attrs": {"start": ("ps", "Z"), "end": ("pe", "Z"), "strand": ("pst", "Z")}, "contains_int": "in_part"},
@@ -43,6 +45,11 @@ HEADERS = {
     "hmm11": "From ASV Require Import Base.\nFrom ASV.C13 Require Import Model.\nOpen Scope Z_scope.\n",
     "conv": "From ASV Require Import Base Loc.\nOpen Scope Z_scope.\n",
     "pack": "From ASV Require Import Base Loc.\nFrom ASV.C19 Require Import Model.\nOpen Scope Z_scope.\n",
+    # split_origin_bridging_location returns (lower, upper) or raises ValueError; the comparators are only tied for
+    # locations on which it does not raise (hypothesis of the tie lemmas), so the pair of the error case is arbitrary
+    "order": ("From ASV Require Import Base Loc.\nOpen Scope Z_scope.\n"
+              "Definition split_pair (l : loc) : list part * list part :=\n"
+              "  match split_bridging l with Ok p => p | Err _ => ([], []) end.\n"),
 }
 
 # which checks re-check which tie file (a broken tie of the group is a broken obligation of these properties)
@@ -60,7 +67,18 @@ PROPS = {
     "cand": ["C05"],
     "orf": ["C15"],
     "pack": ["C19"],
+    "order": ["C04", "C05", "C06", "C08", "C15", "C19"],
 }
+
+ORDER_CALLS = {
+    "location_bridges_origin": {"coq": "bridges", "args": ["loc"], "ret": "bool"},
+    "loc.crosses_origin": {"coq": "bridges", "args": ["loc"], "ret": "bool"},
+    "loc.contains": {"coq": "contains", "args": ["loc", "loc"], "ret": "bool"},
+    "split_origin_bridging_location": {"coq": "split_pair", "args": ["loc"], "ret": "(list part * list part)"},
+}
+
+# tie files of a group that belong to one property only (default: Tie_<group>.v for every property of the group)
+TIE_FILES = {("order", prop): [f"Tie_order_{prop}"] for prop in ["C04", "C05", "C06", "C08", "C15", "C19"]}
 
 KERNELS = [
     # ------------------------------------------------------------------------------------------------ locations
@@ -203,6 +221,19 @@ KERNELS = [
          path=[("For", 1), ("If", 0, "body"), ("For", 0)], take=1, expr="test",
          alias={"cluster.location": ("v_cluster_loc", "loc"), "core.parts[-1].end": ("v_last_end", "Z")},
          params=[("cluster_loc", "loc"), ("last_end", "Z")], returns="bool"),
+    # ------------------------------------------------------------------------------------------------ feature orderings
+    dict(name="k_coll_comparator", group="order", file=COLL, func="CDSCollection.__lt__.get_comparator",
+         params=[("loc", "loc")], returns="(Z * Z)", calls=dict(ORDER_CALLS)),
+    dict(name="k_coll_lt", group="order", file=COLL, func="CDSCollection.__lt__", skip_n=1,
+         alias={"self.location": ("v_self_loc", "loc")},
+         params=[("self_loc", "loc"), ("location", "loc")], returns="bool",
+         calls=dict(ORDER_CALLS, get_comparator={"coq": "k_coll_comparator", "args": ["loc"], "ret": "(Z * Z)"})),
+    dict(name="k_feat_comparator", group="order", file=FEAT, func="Feature.__lt__.get_comparator",
+         params=[("loc", "loc")], returns="(Z * Z)", calls=dict(ORDER_CALLS)),
+    dict(name="k_feat_lt", group="order", file=FEAT, func="Feature.__lt__", skip_n=1,
+         alias={"self.location": ("v_self_loc", "loc"), "self.type == 'source'": ("v_is_source", "bool")},
+         params=[("self_loc", "loc"), ("location", "loc"), ("is_source", "bool")], returns="bool",
+         calls=dict(ORDER_CALLS, get_comparator={"coq": "k_feat_comparator", "args": ["loc"], "ret": "(Z * Z)"})),
     # ------------------------------------------------------------------------------------------------ region GenBank files
     dict(name="k_region_crosses_origin", group="regiongbk", file=RHELP, func="RegionData.crosses_origin",
          params=[("self", "rdata")], returns="bool"),
